@@ -31,7 +31,7 @@ func c09E2E(c *Ctx) {
 	n := c.N(400, 6000)
 	parallelFor(n, 12, func() bool { return c.ViolationCount() >= 10 || !b.Proxy.Alive() }, func(i int) {
 		r := gen.New(c.Seed, "c09e2e", i)
-		listener := allListeners[i%len(allListeners)]
+		listener := allListeners[(i/2)%len(allListeners)]
 		if i%2 == 0 {
 			listener = "udp" // half of the probes on UDP, where the limit varies
 		}
